@@ -49,6 +49,7 @@ func runC02Big(h *H) {
 			if k.clientPV < k.rev {
 				k.clientPV = k.rev
 			}
+			k.srvRev = 0
 		}
 		kind := (i / len(c02Modes)) % 3
 		// 1.05 .. 3.5 MiB of column data
